@@ -50,6 +50,14 @@ func c04Gen(tier string, r *rand.Rand) []Case {
 		cs = append(cs, mkcase(fam, c04In{s, pts, fmt.Sprintf("t%d", r.IntN(50)), hx(rbytes(r, r.IntN(40))), r.Uint64()}))
 	}
 	a, b := rs(), rs()
+	// more than 256 keys / signatures in one aggregation
+	{
+		var ks []*big.Int
+		for i := 0; i < 257+r.IntN(30); i++ {
+			ks = append(ks, rs())
+		}
+		mk("large", ks, []string{"g1", "random"})
+	}
 	mk("single", []*big.Int{a}, []string{"g1"})
 	mk("duplicates", []*big.Int{a, a, a}, []string{"g1", "neg-prev"})
 	mk("inverse-pair", []*big.Int{a, new(big.Int).Sub(blsR, a)}, []string{"torsion", "neg-prev"})
